@@ -62,6 +62,9 @@ class VerifyAttrs(object):
             for func in cls.functions:
                 self.check_fcn_attrs(func)
 
+        for var in node.variables:
+            self.check_var_attrs(None, var)
+
         for func in node.functions:
             self.check_fcn_attrs(func)
 
